@@ -442,10 +442,36 @@ fn views(expected: String, observed: String) -> (String, String) {
     (cut(&expected), cut(&observed))
 }
 
-/// The oracle: the wrapper's result equals the result of the function it stands for.
+/// Agreement of a wrapper's result with the result of the function it stands for, at the level the PROPERTIES fix: equal values on
+/// success; on refusal both refuse and blame the same participants (`Error::culprits()`), but the error VALUE (which refusal wins when
+/// several apply, a different variant for input that is refused anyway) is left open -- an added early refusal in a wrapper is not a defect.
+pub trait Agree {
+    fn agrees(&self, other: &Self) -> bool;
+}
+impl<T: PartialEq, C2: Ciphersuite> Agree for Result<T, fc::Error<C2>> {
+    fn agrees(&self, other: &Self) -> bool {
+        match (self, other) {
+            (Ok(a), Ok(b)) => a == b,
+            (Err(a), Err(b)) => a.culprits() == b.culprits(),
+            _ => false,
+        }
+    }
+}
+impl<A: PartialEq, B: PartialEq> Agree for (A, B) {
+    fn agrees(&self, other: &Self) -> bool {
+        self == other
+    }
+}
+impl<C2: Ciphersuite> Agree for Sigma<C2> {
+    fn agrees(&self, other: &Self) -> bool {
+        self == other
+    }
+}
+
+/// The oracle: the wrapper's result agrees (see `Agree`) with the result of the function it stands for.
 /// `target`: full path of that function; `input`: which of the generated inputs was used.
-fn same_as<C: Suite, T: PartialEq + Render>(path: &str, target: &str, input: &str, wrapper: &T, reference: &T, notes: &mut Notes) -> Verdict {
-    if wrapper == reference {
+fn same_as<C: Suite, T: Agree + Render>(path: &str, target: &str, input: &str, wrapper: &T, reference: &T, notes: &mut Notes) -> Verdict {
+    if wrapper.agrees(reference) {
         return Ok(());
     }
     notes.insert("wrapper".into(), json!(format!("{}::{path}", C::KRATE)));
@@ -459,7 +485,7 @@ fn same_as<C: Suite, T: PartialEq + Render>(path: &str, target: &str, input: &st
     )
 }
 
-fn same<C: Suite, T: PartialEq + Render>(path: &str, input: &str, wrapper: &T, reference: &T, notes: &mut Notes) -> Verdict {
+fn same<C: Suite, T: Agree + Render>(path: &str, input: &str, wrapper: &T, reference: &T, notes: &mut Notes) -> Verdict {
     same_as::<C, T>(path, &format!("frost_core::{path}"), input, wrapper, reference, notes)
 }
 
